@@ -895,7 +895,7 @@ func (g *histGen) randJar(own int) []absCookie {
 			other = -1
 		}
 	}
-	switch r.Intn(16) {
+	switch r.Intn(17) {
 	case 0, 1, 2, 3, 4: // full
 		full()
 	case 5: // empty
@@ -941,6 +941,19 @@ func (g *histGen) randJar(own int) []absCookie {
 		if other >= 0 {
 			jar = append(jar, absCookie{Src: "tracking", Step: other, Name: "own"})
 		}
+	case 16: // genuine own cookie, plus a live cookie (own or another flow's) under a name that is not its index
+		if own >= 0 {
+			jar = append(jar, absCookie{Src: "tracking", Step: own, Name: "own"})
+			src := own
+			if other >= 0 && r.Intn(2) == 0 {
+				src = other
+			}
+			name := "=saml_third"
+			if other >= 0 && r.Intn(2) == 0 {
+				name = fmt.Sprintf("flow:%d", other)
+			}
+			jar = append(jar, absCookie{Src: "tracking", Step: src, Name: name})
+		}
 	case 12: // garbage under own name first, genuine second
 		if own >= 0 {
 			jar = append(jar, absCookie{Src: "garbage", Step: own, Name: fmt.Sprintf("flow:%d", own)}, absCookie{Src: "tracking", Step: own, Name: "own"})
@@ -969,7 +982,7 @@ func (g *histGen) randJar(own int) []absCookie {
 
 func (g *histGen) randRelay(own int) string {
 	r := g.c.Rng
-	switch r.Intn(10) {
+	switch r.Intn(11) {
 	case 0, 1, 2, 3, 4:
 		return "faithful"
 	case 5:
@@ -983,6 +996,8 @@ func (g *histGen) randRelay(own int) string {
 		return "empty"
 	case 8:
 		return "url"
+	case 9:
+		return "=third"
 	default:
 		return "=/protected/a?x=1"
 	}
@@ -1098,6 +1113,9 @@ func directedHistories(cfg worldCfg) map[string][]absStep {
 	h["other-flows-relay"] = mk(start("/protected/a?x=1"), start("/protected/b"), answer(0, "alice"), deliver(2, "flow:1", tr(0), tr(1)))
 	h["renamed-cookie"] = mk(start("/protected/a?x=1"), start("/protected/b"), answer(0, "alice"),
 		deliver(2, "flow:1", absCookie{Src: "tracking", Step: 0, Name: "flow:1"}), deliver(2, "faithful", absCookie{Src: "tracking", Step: 0, Name: "flow:1"}))
+	h["own-cookie-also-under-other-name"] = mk(start("/protected/a?x=1"), start("/protected/b"), answer(0, "alice"),
+		deliver(2, "flow:1", tr(0), absCookie{Src: "tracking", Step: 0, Name: "flow:1"}),
+		deliver(2, "=third", tr(0), absCookie{Src: "tracking", Step: 1, Name: "=saml_third"}))
 	h["swapped-values"] = mk(start("/protected/a?x=1"), start("/protected/b"), answer(0, "alice"),
 		deliver(2, "faithful", absCookie{Src: "tracking", Step: 0, Name: "flow:1"}, absCookie{Src: "tracking", Step: 1, Name: "flow:0"}))
 	h["unsolicited-with-pending-flow"] = mk(start("/protected/a?x=1"), answer(-1, "mallory"), deliver(1, "empty", tr(0)), deliver(1, "faithful", tr(0)), deliver(1, "flow:0", tr(0)))
@@ -1134,6 +1152,78 @@ func directedHistories(cfg worldCfg) map[string][]absStep {
 			deliver(2, "faithful", tr(0), tr(1)), deliver(3, "faithful", tr(0), tr(1)))
 	}
 	return h
+}
+
+// exhaustiveHistories enumerates every sequence of length <= depth over the alphabet
+// {start A, start B, IdP answers A, IdP answers B, deliver A faithfully with the full jar,
+//  deliver A with only B's cookie, deliver A's answer with B's RelayState, deliver B faithfully,
+//  advance past the tracking lifetime} in which every action is applicable.
+func exhaustiveHistories(mid int64, depth int) [][]absStep {
+	type st struct {
+		steps                    []absStep
+		startA, startB           int // step ids, -1 if not yet
+		ansA, ansB               int
+	}
+	var out [][]absStep
+	var rec func(s st)
+	rec = func(s st) {
+		if len(s.steps) > 0 {
+			last := s.steps[len(s.steps)-1]
+			if last.Op == "deliver" { // only histories ending in a delivery say anything new
+				out = append(out, append([]absStep(nil), s.steps...))
+			}
+		}
+		if len(s.steps) == depth {
+			return
+		}
+		id := len(s.steps)
+		push := func(a absStep, f func(n *st)) {
+			a.ID = id
+			n := s
+			n.steps = append(append([]absStep(nil), s.steps...), a)
+			if f != nil {
+				f(&n)
+			}
+			rec(n)
+		}
+		jarFull := func() []absCookie {
+			var j []absCookie
+			if s.startA >= 0 {
+				j = append(j, tr(s.startA))
+			}
+			if s.startB >= 0 {
+				j = append(j, tr(s.startB))
+			}
+			return j
+		}
+		if s.startA < 0 {
+			push(absStep{Op: "start", URL: "/protected/a?x=1"}, func(n *st) { n.startA = id })
+		}
+		if s.startB < 0 && s.startA >= 0 {
+			push(absStep{Op: "start", URL: "/protected/b"}, func(n *st) { n.startB = id })
+		}
+		if s.startA >= 0 && s.ansA < 0 {
+			push(absStep{Op: "answer", Flow: s.startA, User: "alice"}, func(n *st) { n.ansA = id })
+		}
+		if s.startB >= 0 && s.ansB < 0 {
+			push(absStep{Op: "answer", Flow: s.startB, User: "bob"}, func(n *st) { n.ansB = id })
+		}
+		if s.ansA >= 0 {
+			push(absStep{Op: "deliver", Answer: s.ansA, Relay: "faithful", Jar: jarFull()}, nil)
+			if s.startB >= 0 {
+				push(absStep{Op: "deliver", Answer: s.ansA, Relay: "faithful", Jar: []absCookie{tr(s.startB)}}, nil)
+				push(absStep{Op: "deliver", Answer: s.ansA, Relay: fmt.Sprintf("flow:%d", s.startB), Jar: jarFull()}, nil)
+			}
+		}
+		if s.ansB >= 0 {
+			push(absStep{Op: "deliver", Answer: s.ansB, Relay: "faithful", Jar: jarFull()}, nil)
+		}
+		if len(s.steps) > 0 && s.steps[len(s.steps)-1].Op != "advance" {
+			push(absStep{Op: "advance", DT: mid}, nil)
+		}
+	}
+	rec(st{startA: -1, startB: -1, ansA: -1, ansB: -1})
+	return out
 }
 
 // ---------- shrinking ----------
@@ -1236,6 +1326,23 @@ func runC17(c *Ctx) {
 		emitCase(res, class, 0)
 	}
 
+	if p := os.Getenv("VERIF_REPLAY"); p != "" {
+		// re-run exactly the stored history
+		var rp struct {
+			Case struct {
+				Input struct {
+					World   worldCfg  `json:"world"`
+					History []absStep `json:"history"`
+					Name    string    `json:"name"`
+					Seed    int64     `json:"seed"`
+				} `json:"input"`
+			} `json:"case"`
+		}
+		if b, err := os.ReadFile(p); err == nil && json.Unmarshal(b, &rp) == nil && len(rp.Case.Input.History) > 0 {
+			addHist(rp.Case.Input.World, rp.Case.Input.Name, "replay", rp.Case.Input.History, rp.Case.Input.Seed)
+			return
+		}
+	}
 	for wi, wc := range worlds {
 		dh := directedHistories(wc)
 		names := make([]string, 0, len(dh))
@@ -1246,6 +1353,16 @@ func runC17(c *Ctx) {
 		for _, n := range names {
 			addHist(wc, n, "directed/"+n, dh[n], int64(wi)+1)
 		}
+	}
+	if c.Thorough() {
+		// bounded-exhaustive: every applicable sequence over a reduced alphabet, two concurrent flows, depth <= 7
+		wc := worlds[0]
+		n := 0
+		for _, h := range exhaustiveHistories(wc.MidS*nsPerS, 7) {
+			n++
+			addHist(wc, fmt.Sprintf("exhaustive-%d", n), "exhaustive", h, 7)
+		}
+		c.Extra["exhaustive_histories"] = n
 	}
 	nrand := 300
 	if c.Thorough() {
